@@ -4,6 +4,7 @@ package ui
 
 import (
 	"servitor/config"
+	"servitor/object"
 	"servitor/pub"
 	"servitor/verifrt"
 	"sync"
@@ -64,5 +65,44 @@ func VerifC08Events() {
 	mode := s.mode
 	s.m.Unlock()
 	verifrt.Assert(mode != loading, "no-load-left-pending")
+	verifrt.Reach("end")
+}
+
+// VerifC08RealThread: the same with a real post whose ancestors are loaded by
+// the background loader while keys and resizes arrive.
+func VerifC08RealThread() {
+	log := &frameLog{}
+	s := newTestState(30, 8, log)
+	settleState = s
+	post, err := pub.NewPostFromObject(object.Object{"type": "Note", "content": "<p>leaf</p>",
+		"inReplyTo": map[string]any{"type": "Note", "content": "<p>parent</p>", "name": "p",
+			"inReplyTo": map[string]any{"type": "Note", "content": "<p>grandparent</p>", "name": "g"}}}, nil)
+	verifrt.Assert(err == nil, "post-built")
+	// as at start-up: nothing is shown until the first page has been opened
+	s.mode = loading
+	open := func() {
+		s.m.Lock()
+		s.switchTo(pub.Tangible(post))
+		s.mode = normal
+		s.buffer = ""
+		s.output(s.view())
+		s.m.Unlock()
+	}
+	verifrt.ExploreSchedules(true)
+	var events sync.WaitGroup
+	events.Add(1)
+	go func() { open(); events.Done() }()
+	n := verifrt.Param("events", 2)
+	for i := 0; i < n; i++ {
+		i := i
+		events.Add(1)
+		if verifrt.Choice("event", 2) == 0 {
+			go func() { s.SetWidthHeight(20+i, 6); events.Done() }()
+		} else {
+			go func() { open(); events.Done() }()
+		}
+	}
+	events.Wait()
+	verifrt.Settle()
 	verifrt.Reach("end")
 }
